@@ -168,6 +168,9 @@ func (r *Router) clusterDMap() (olric.DMap, error) {
 	return d, nil
 }
 
+// ClusterDMap returns the (cached) cluster client's handle of the DMap.
+func (r *Router) ClusterDMap() (olric.DMap, error) { return r.clusterDMap() }
+
 // ResetClusterClient drops the cached cluster client (after membership changes).
 func (r *Router) ResetClusterClient() {
 	r.Close()
